@@ -19,6 +19,8 @@ SPEC = {
     'assumptions': [
         'the model Wire/Json.v (enc, dec/dec_naked/decode1/dec_seq, nvb/skip/raw) is hand written from json.go, json.base.go, reader.go (bytesDecReader json helpers), decode.go (decodeValue, kInterfaceNaked, kMap) and the fast paths DecSliceIntfY / DecMapStringIntfL; it is tied to the code by running both on the same inputs on every run (vm_compute): encoder bytes byte-for-byte, per Decode call outcome class + canonical tree + NumBytesRead, per nextValueBytes call outcome class + NumBytesRead + captured bytes, sequences of calls on one Decoder',
         'lexical leaves are a parameter (record leaf). Strings and integers are the C09 model definitions (C09/Model.v quote_body, dq_scan/dq_loop, enc_uint_loop, parseUint64_simple); their laws (quote then unquote = utf8_sanitise, plain literals, the skip scanner ends at the closing quote, digits parse back, string decoder totality) are PROVED in Wire/JsonLeaf.v from the C09 theorems. What remains a hypothesis of the round-trip theorems is float_time_laws about the oracle: strconv shortest float text consists of number characters and is accepted back by parseNumber/parseFloat64, integer texts are accepted by parseFloat64 under PreferFloat, the RFC3339Nano text has no quote or backslash; in the correspondence these texts are tables observed by the harness',
+        'the float law of leaf_laws / float_time_laws (the number reader accepts the float text the encoder wrote) is guarded by num_read_ok: json writes an integral float >= 2^52 (< 1e21) as a bare integer literal, and such a literal >= 2^63 is refused under SignedInteger without PreferFloat (parseNumber); the unguarded statement is refuted on the model with the observed text of 1e19 (W_json_float_bareint_refuted; class of known finding F15-1); jwf carries the guard for IF64/IF32; harness stream fixed exercises both sides of 2^63 under every (SignedInteger, PreferFloat) pair',
+        'quoted_key (DecodeNaked of a quoted map key under MapKeyAsString + MapType map[interface{}]interface{}) reads a number only from a JSON number literal (jsonIsNumberLiteral, repair F09-4; C09 model of the predicate); harness stream fixed: keys .5 1. - e5 +5 007 ... under all 16 decoder option vectors',
         'a repeated map key makes kMap / DecMapStringIntfL decode the value INTO the value already stored: not modelled (Err EUnsupported, no prediction); the round-trip theorems require pairwise different keys',
         'bytes reader only (the io reader is property C03); amd64',
     ],
